@@ -16,7 +16,7 @@ EXHAUSTIVE = {"quick": False, "thorough": False}
 
 SCHEMA = [Opt("s", "str", 0, b"D"), Opt("sl", "str", LIST, None), Opt("i", "int", 0, 0)]
 
-ATOMS = [bytes([c]) for c in b"\"'\\${}:-0789afgxntevrb\n\r \t#/*=+,()A|"] + [b"\xe9", b"${V1}", b"${V2:-d}", b"${V3}", b"${V2}", b"\\\n"]
+ATOMS = [bytes([c]) for c in b"\"'\\${}:-0789afgxntevrb\n\r \t#/*=+,()A|"] + [b"\xe9", b"${V1}", b"${V2:-d}", b"${V3}", b"${V2}", b"\\\n", b"${V3:-d}", b"${V1:-x}", b"${V2:-}"]
 ENVS = [("V1", b"val\"q\\b}"), ("V2", None), ("V3", b"")]
 WELL = re.compile(rb"\$\{[A-Za-z0-9_]+(:-[^}\"'\n\\$]*)?\}")
 
@@ -59,7 +59,7 @@ def generate(rng, tier):
             for mode in ("dq", "sq", "un", "li"):
                 cases.append(mk_case("x%d" % n, lit, mode))
                 n += 1
-    nrand = 12000 if tier == "quick" else 400000
+    nrand = 12000 if tier == "quick" else 60000
     for _ in range(nrand):
         L = rng.randint(3, 10)
         lit = b"".join(rng.choice(ATOMS) for _ in range(L))
